@@ -43,7 +43,14 @@ pub fn run(ctx: &Ctx) {
         b.push(Block::new(Universe::new("U_adv(A_meta)", A_META, 2, 2, true), k1.clone(), "Lambda<=1"));
         b.push(Block::new(Universe::new("U_adv(A_cls)", A_CLS, 2, 2, true), k2.clone(), "Lambda<=2"));
         b.push(Block::new(Universe::new("U_abc2{a,b,c}", &["a", "b", "c"], 2, 3, true), k3.clone(), "Lambda<=3"));
+        let rx: Vec<Cfg> = [R, R | X, R | X | NA | NE, R | X | G, R | X | I, R | X | E, R | NE].iter().map(|b| Cfg::new(*b)).collect();
+        b.push(Block::new(crate::props::c05::u_rep_single(&["a", "b"], 7), rx.clone(), "r, r+x, r+x+na+ne, r+x+g, r+x+i, r+x+e, r+ne"));
+        b.push(Block::new(Universe::new("U_pairs{a,b}^<=4", &["a", "b"], 4, 2, false), vec![Cfg::new(R | X), Cfg::with(R | X, 2, 1)], "r+x, r+x(2,1)"));
     } else {
+        let rx = lattice_le(R | X, free, 2);
+        b.push(Block::new(crate::props::c05::u_rep_single(&["a", "b"], 9), rx.clone(), "r+x + Lambda<=2"));
+        b.push(Block::new(crate::props::c05::u_rep_single(&["a", "\u{1f4a9}", "("], 6), rx.clone(), "r+x + Lambda<=2"));
+        b.push(Block::new(Universe::new("U_pairs{a,b}^<=4", &["a", "b"], 4, 2, false), lattice_le(R | X, free, 1), "r+x + Lambda<=1"));
         b.push(Block::new(Universe::new("U_ab3{a,b}", &["a", "b"], 3, 0, true), k2.clone(), "Lambda<=2"));
         b.push(Block::new(Universe::new("U_adv(A_sgr)", A_SGR, 2, 2, true), k3.clone(), "Lambda<=3"));
         b.push(Block::new(Universe::new("U_adv(A_meta)", A_META, 2, 2, true), k3.clone(), "Lambda<=3"));
